@@ -169,20 +169,24 @@ PROP = dict(
         "this cross-wait is outside the model and is not exercised by the runs",
         "deprecate.encountered is not a test-and-set (seen_not_test_and_set): a deprecation warning may be printed more than "
         "once under concurrency; results are unaffected",
-        "stdin's read-once protocol and the deprecation cache are modelled and proved but not exercised by the support runs "
-        "(the harness's own stdin carries the cases)",
+        "the deprecation cache is modelled and proved but not exercised by the support runs",
+        "first-use runs (op fresh) start the harness itself as a child process whose stdin is a pipe fed in chunks; every "
+        "goroutine of the child must get exactly what a one-goroutine child gets (and what the model says): std scope, "
+        "FixFuncs, embedded files, implicit decoder / import cache (./d.json, ./m.arrai in a temporary module), //os.stdin",
         "correspondence runs: shared values = integer sets, binary relations and relations of nested tuples with 0..1000 "
         "members, 24 program shapes (where / => / count / | / & / &~ / orderby / <&> / -&- / nest / +> / projection), "
         "2..16 goroutines x 1..3 rounds; getOrAdd: 2..12 callers, 1..3 keys, scripted add outcomes",
     ],
     level_text="Proof (partial): Lean theorems, for ALL interleavings (induction over the schedule) and any number of callers, about "
                "transliterated protocol machines of every lazily initialised shared state of arr.ai: sync.Once caches (f runs at "
-               "most once, every caller gets f's value), the mutex-held index / embedded-file / stdin caches, importCache.getOrAdd "
+               "most once, every caller gets f's value), the mutex-held index / embedded-file caches, stdin's read-once over a consuming stream (every caller gets the whole input; "
+               "witness that the narrowed-lock variant does not), importCache.getOrAdd "
                "(serial results, at most one successful add per key; liveness of the repaired code by a termination measure and "
                "deadlock-freedom, plus a machine-checked witness that the unrepaired code loses a wake-up), deprecate's cache; and "
                "a happens-before trace model with theorem discipline_sound (once / mutex / read-only-after-publication disciplines "
                "exclude data races) whose premise per location is the fact table lazyState regenerated from the sources on every "
-               "run (obligation Generated = Expected, every row classified). Partial because the Go memory model, the scheduler "
+               "run (obligation Generated = Expected, every row classified; a second table lazyCompute records for every mutex-guarded "
+               "compute-and-store whether the locked region spans the computing call, so narrowing a region breaks an obligation). Partial because the Go memory model, the scheduler "
                "and frozen's internal goroutines are not modelled: the tie between 'the code follows the discipline' and the "
                "sources is syntactic (extractor), and is supported - not proved - by concurrent runs (8 goroutines over shared "
                "compiled expressions and shared values; thorough: under the race detector with FROZEN_CONCURRENCY=0).",
@@ -197,6 +201,6 @@ PROP = dict(
            "rel.positionalRelationMetadata.computeIndex", "rel.positionalRelation.groupBy", "rel.positionalRelation.Where",
            "rel.GenericSet.Where", "rel.firstError.set", "rel.firstError.get",
            "syntax.FixFuncs", "syntax.StdScope", "syntax.SafeStdScope", "syntax.implicitDecoder", "syntax.mustReadEmbeddedFile",
-           "syntax.stdOsStdin.read", "pkg/importcache.importCache.getOrAdd", "pkg/deprecate.sourceContextCache.encountered",
+           "syntax.stdOsStdin.read", "syntax.stdOsStdin.reset", "pkg/importcache.importCache.getOrAdd", "pkg/deprecate.sourceContextCache.encountered",
            "pkg/deprecate.delayDuration"],
 )
